@@ -69,7 +69,23 @@ pub fn analysed_event(id: usize, n: usize, edges: &[(usize, usize)], merge: &str
 
 pub fn random_graph(rng: &mut StdRng, n: usize) -> Vec<(usize, usize)> {
     let mut e = vec![];
-    match rng.gen_range(0..6) {
+    match rng.gen_range(0..8) {
+        6 | 7 => {
+            // random k-tree (optionally thinned): a (k+1)-clique, then every new vertex is joined to a random k-clique
+            // of what is there - chordal, with a BRANCHING clique tree and many equal-sized separators
+            let k = rng.gen_range(1..4usize).min(n - 1);
+            let mut cliques: Vec<Vec<usize>> = vec![(0..=k).collect()];
+            for i in 0..=k { for j in (i + 1)..=k { e.push((i, j)); } }
+            for v in (k + 1)..n {
+                let base = cliques[rng.gen_range(0..cliques.len())].clone();
+                let drop = rng.gen_range(0..base.len());
+                let kc: Vec<usize> = base.iter().enumerate().filter(|(t, _)| *t != drop).map(|(_, x)| *x).collect();
+                for &u in &kc { e.push((u, v)); }
+                let mut nc = kc; nc.push(v);
+                cliques.push(nc);
+            }
+            if rng.gen::<f64>() < 0.3 { e.retain(|_| rng.gen::<f64>() < 0.9); }
+        }
         0 => { let bw = rng.gen_range(1..4); for i in 0..n { for j in (i + 1)..n.min(i + bw + 1) { e.push((i, j)); } } }
         1 => { for j in 1..n { e.push((0, j)); } let bw = rng.gen_range(0..2); for i in 1..n { for j in (i + 1)..n.min(i + bw + 1) { e.push((i, j)); } } }
         2 => { let bs = rng.gen_range(2..6); for i in 0..n { for j in (i + 1)..n { if i / bs == j / bs { e.push((i, j)); } } } }
